@@ -146,6 +146,7 @@ func brokenInstances(r *rng) (out []struct {
 }
 
 func genC07(tier string, r *rng) {
+	genArmor(tier, r.fork()) // tie of Model/Armor.lean (the copied OpenPGP armor reader) to the code
 	names := []string{"authorized_keys", "known_hosts", "d/authorized_keys", "a/b/known_hosts", "authorized_keys2", "known_hosts.old",
 		"xauthorized_keys", "authorized_keys.pub", "Authorized_Keys", "key.pem", "x", "file.bin", "known_hosts/x", ".known_hosts", "id_rsa.pub", "a b", "-"}
 	type content struct {
